@@ -344,71 +344,52 @@ func ruleBOOL3(p *Program) *RuleResult {
 	if err != nil {
 		return r.anchorFail(err)
 	}
-	var leftCall, rightCall *ssa.Call
-	for _, ec := range evaluateCalls(be) {
-		switch ec.recv {
-		case "field:Left":
-			leftCall = ec.call
-		case "field:Right":
-			rightCall = ec.call
-		}
+	runNode := func(op string, left, right aval) (*result, *operandEnv) {
+		an := newAnalyzer()
+		an.maxBlocks = 200
+		oe := newOperandEnv()
+		oe.results["field:Left"] = left
+		oe.results["field:Right"] = right
+		an.callModel = oe.model()
+		res := an.analyze(be, []aval{nodeReceiver(be, map[string]aval{"Op": cStr(op)}), nonnil("ctx"), top})
+		return res, oe
 	}
-	var opLoad ssa.Value
-	for _, b := range be.Blocks {
-		for _, ins := range b.Instrs {
-			if ld, ok := ins.(*ssa.UnOp); ok {
-				if fa, ok := ld.X.(*ssa.FieldAddr); ok && fieldName(fa) == "Op" && fa.X == ssa.Value(be.Params[0]) {
-					if opLoad != nil {
-						// several loads of e.Op: pin all of them below via map
-					}
-					opLoad = ld
-				}
-			}
-		}
-	}
-	if leftCall == nil || rightCall == nil || opLoad == nil {
-		r.undecided("BooleanExpression.Evaluate|shape", "Left/Right Evaluate calls or Op load not found", p.pos(be.Pos()), "unsupported shape")
+	// shape: both operands are evaluated
+	if _, oe := runNode("and", okTuple(st.formColl(boolForms[0])), okTuple(st.formColl(boolForms[0]))); !oe.evaluated["field:Left"] || !oe.evaluated["field:Right"] {
+		r.undecided("BooleanExpression.Evaluate|shape", "the Left/Right operands are not both evaluated (on true and true)", p.pos(be.Pos()), "unsupported shape")
 		return r
-	}
-	var opLoads []ssa.Value
-	for _, b := range be.Blocks {
-		for _, ins := range b.Instrs {
-			if ld, ok := ins.(*ssa.UnOp); ok {
-				if fa, ok := ld.X.(*ssa.FieldAddr); ok && fieldName(fa) == "Op" && fa.X == ssa.Value(be.Params[0]) {
-					opLoads = append(opLoads, ld)
-				}
-			}
-		}
 	}
 	for _, op := range ops {
 		for _, l := range boolForms {
 			for _, rr := range boolForms {
 				r.count("node_cells", 1)
-				an := newAnalyzer()
-				an.maxBlocks = 200
-				for _, ol := range opLoads {
-					an.pin[ol] = cStr(op)
-				}
-				an.pin[leftCall] = okTuple(st.formColl(l))
-				an.pin[rightCall] = okTuple(st.formColl(rr))
-				res := an.analyze(be, []aval{nonnil("e"), nonnil("ctx"), top})
+				res, _ := runNode(op, okTuple(st.formColl(l)), okTuple(st.formColl(rr)))
 				want := -2
 				if l.tv != -2 && rr.tv != -2 {
 					want = specBool(op, l.tv, rr.tv)
 				}
 				got := -3
-				if len(res.rets) == 1 && len(res.hazards) == 0 {
-					ri := res.rets[0]
-					if retIsErr(ri) {
-						got = -2
-					} else if retIsOK(ri) {
-						got = collTruth(ri.vals[0])
+				if len(res.hazards) == 0 && len(res.rets) > 0 {
+					// every executable return must agree (helpers may add return sites)
+					got = -4
+					for _, ri := range res.rets {
+						g := -3
+						if retIsErr(ri) {
+							g = -2
+						} else if retIsOK(ri) {
+							g = collTruth(ri.vals[0])
+						}
+						if got == -4 {
+							got = g
+						} else if got != g {
+							got = -3
+						}
 					}
 				}
 				key := fmt.Sprintf("BooleanExpression|%s|%s,%s", op, l.name, rr.name)
 				desc := fmt.Sprintf("(%s) %s (%s) = %s (N1: %s)", l.name, op, rr.name, tvName(got), tvName(want))
 				if got == want {
-					r.ok(key, desc, p.pos(be.Pos()), "SCCP through BooleanExpression.Evaluate with operand results pinned", true)
+					r.ok(key, desc, p.pos(be.Pos()), "SCCP through BooleanExpression.Evaluate with the operand results fixed by tag", true)
 				} else {
 					r.bad(key, desc, p.pos(be.Pos()), "operator node result differs from the N1 table / singleton rule")
 				}
@@ -416,17 +397,20 @@ func ruleBOOL3(p *Program) *RuleResult {
 		}
 	}
 	// operand errors propagate, nothing else is evaluated into a value
-	for side, call := range map[string]*ssa.Call{"left": leftCall, "right": rightCall} {
-		an := newAnalyzer()
-		an.maxBlocks = 200
-		for _, ol := range opLoads {
-			an.pin[ol] = cStr("and")
+	for _, side := range []string{"left", "right"} {
+		l, rr := okTuple(st.formColl(boolForms[0])), okTuple(st.formColl(boolForms[0]))
+		if side == "left" {
+			l = errTuple()
+		} else {
+			rr = errTuple()
 		}
-		an.pin[leftCall] = okTuple(st.formColl(boolForms[0]))
-		an.pin[rightCall] = okTuple(st.formColl(boolForms[0]))
-		an.pin[call] = errTuple()
-		res := an.analyze(be, []aval{nonnil("e"), nonnil("ctx"), top})
-		ok := len(res.rets) == 1 && retIsErr(res.rets[0])
+		res, _ := runNode("and", l, rr)
+		ok := len(res.rets) > 0
+		for _, ri := range res.rets {
+			if !retIsErr(ri) {
+				ok = false
+			}
+		}
 		key := "BooleanExpression|operand-error|" + side
 		if ok {
 			r.ok(key, side+" operand error is returned", p.pos(be.Pos()), "SCCP", true)
@@ -436,15 +420,14 @@ func ruleBOOL3(p *Program) *RuleResult {
 	}
 	// unknown operator is an error
 	{
-		an := newAnalyzer()
-		an.maxBlocks = 200
-		for _, ol := range opLoads {
-			an.pin[ol] = cStr("<other>")
+		res, _ := runNode("<other>", okTuple(st.formColl(boolForms[0])), okTuple(st.formColl(boolForms[0])))
+		ok := len(res.rets) > 0
+		for _, ri := range res.rets {
+			if !retIsErr(ri) {
+				ok = false
+			}
 		}
-		an.pin[leftCall] = okTuple(st.formColl(boolForms[0]))
-		an.pin[rightCall] = okTuple(st.formColl(boolForms[0]))
-		res := an.analyze(be, []aval{nonnil("e"), nonnil("ctx"), top})
-		if len(res.rets) == 1 && retIsErr(res.rets[0]) {
+		if ok {
 			r.ok("BooleanExpression|unknown-op", "unknown operator → error", p.pos(be.Pos()), "SCCP", true)
 		} else {
 			r.bad("BooleanExpression|unknown-op", "unknown operator does not produce an error", p.pos(be.Pos()), "an operator outside and/or/xor/implies must not evaluate to a value")
@@ -499,10 +482,6 @@ func ruleBOOL2(p *Program) *RuleResult {
 		return r.anchorFail(err)
 	}
 	{
-		var crit *ssa.Call
-		for _, ec := range evaluateCalls(where) {
-			crit = ec.call
-		}
 		var appends []ssa.Instruction
 		for _, b := range where.Blocks {
 			for _, ins := range b.Instrs {
@@ -513,15 +492,20 @@ func ruleBOOL2(p *Program) *RuleResult {
 				}
 			}
 		}
-		if crit == nil || len(appends) == 0 || len(evaluateCalls(where)) != 1 {
-			r.undecided("impl.Where|shape", "criterion call / append not found", p.pos(where.Pos()), "unsupported shape")
+		runWhere := func(f boolForm) (*result, *operandEnv) {
+			an := newAnalyzer()
+			an.maxBlocks = 200
+			oe := newOperandEnv()
+			oe.results["args[0]"] = okTuple(st.formColl(f))
+			an.callModel = oe.model()
+			return an.analyze(where, []aval{nonnil("ctx"), coll(item), argsValue(1)}), oe
+		}
+		if _, oe := runWhere(boolForms[0]); !oe.evaluated["args[0]"] || len(appends) == 0 {
+			r.undecided("impl.Where|shape", "criterion evaluation / append not found", p.pos(where.Pos()), "unsupported shape")
 		} else {
 			for _, f := range boolForms {
 				r.count("criterion_hypotheses", 1)
-				an := newAnalyzer()
-				an.maxBlocks = 200
-				an.pin[crit] = okTuple(st.formColl(f))
-				res := an.analyze(where, []aval{nonnil("ctx"), coll(item), sliceLen(1)})
+				res, _ := runWhere(f)
 				kept := false
 				for _, a := range appends {
 					if res.executable(a) {
@@ -551,16 +535,20 @@ func ruleBOOL2(p *Program) *RuleResult {
 		return r.anchorFail(err)
 	}
 	{
-		ecs := evaluateCalls(all)
-		if len(ecs) != 1 {
-			r.undecided("impl.All|shape", "criterion call not found", p.pos(all.Pos()), "unsupported shape")
+		runAll := func(f boolForm) (*result, *operandEnv) {
+			an := newAnalyzer()
+			an.maxBlocks = 200
+			oe := newOperandEnv()
+			oe.results["args[0]"] = okTuple(st.formColl(f))
+			an.callModel = oe.model()
+			return an.analyze(all, []aval{nonnil("ctx"), coll(item), argsValue(1)}), oe
+		}
+		if _, oe := runAll(boolForms[0]); !oe.evaluated["args[0]"] {
+			r.undecided("impl.All|shape", "criterion evaluation not found", p.pos(all.Pos()), "unsupported shape")
 		} else {
 			for _, f := range boolForms {
 				r.count("criterion_hypotheses", 1)
-				an := newAnalyzer()
-				an.maxBlocks = 200
-				an.pin[ecs[0].call] = okTuple(st.formColl(f))
-				res := an.analyze(all, []aval{nonnil("ctx"), coll(item), sliceLen(1)})
+				res, _ := runAll(f)
 				sawFalse, sawTrue, sawErr := false, false, false
 				for _, ri := range res.rets {
 					switch {
@@ -600,23 +588,23 @@ func ruleBOOL2(p *Program) *RuleResult {
 		return r.anchorFail(err)
 	}
 	{
-		calls := map[string]*ssa.Call{}
-		for _, ec := range evaluateCalls(iif) {
-			calls[ec.recv] = ec.call
+		runIif := func(n int, f boolForm) (*result, *operandEnv) {
+			an := newAnalyzer()
+			an.maxBlocks = 200
+			oe := newOperandEnv()
+			oe.results["args[0]"] = okTuple(st.formColl(f))
+			oe.results["args[1]"] = okTuple(coll(st.strItem("THEN")))
+			oe.results["args[2]"] = okTuple(coll(st.strItem("ELSE")))
+			an.callModel = oe.model()
+			return an.analyze(iif, []aval{nonnil("ctx"), coll(item), argsValue(n)}), oe
 		}
-		c0, c1, c2 := calls["args[0]"], calls["args[1]"], calls["args[2]"]
-		if c0 == nil || c1 == nil || c2 == nil {
-			r.undecided("impl.Iif|shape", "args[0..2].Evaluate calls not found", p.pos(iif.Pos()), "unsupported shape")
+		if _, oe := runIif(3, boolForms[0]); !oe.evaluated["args[0]"] || !oe.evaluated["args[1]"] {
+			r.undecided("impl.Iif|shape", "criterion / then-branch evaluation not found", p.pos(iif.Pos()), "unsupported shape")
 		} else {
 			for _, n := range []int{2, 3} {
 				for _, f := range boolForms {
 					r.count("criterion_hypotheses", 1)
-					an := newAnalyzer()
-					an.maxBlocks = 200
-					an.pin[c0] = okTuple(st.formColl(f))
-					an.pin[c1] = okTuple(coll(st.strItem("THEN")))
-					an.pin[c2] = okTuple(coll(st.strItem("ELSE")))
-					res := an.analyze(iif, []aval{nonnil("ctx"), coll(item), sliceLen(n)})
+					res, _ := runIif(n, f)
 					got := "?"
 					if len(res.rets) == 1 && len(res.hazards) == 0 {
 						ri := res.rets[0]
